@@ -45,6 +45,7 @@ def generate(seed: int, tier: str = "quick") -> dict:
         expiries=["on_hour", "on_hour", "between", "between", "before_first", "after_last"],
         strike_offsets=offs, tiny_marks=0.35, n_instruments=rw.choice([1, 2, 3, 4, 6]), max_levels=rw.choice([2, 4, 8]),
         size_kinds=["int", "float_int"] if token == "ETH" else ["int", "float_int", "frac"], closed_state_prob=0.0,
+        basis=R.sub(seed, "basis").random() < 0.4,  # every expiry quoted against its own underlying (index / futures basis)
     )
     world["markets"].append(mw)
     if comarket:
